@@ -126,7 +126,7 @@ def ui_fail_programs():
     return out, skipped
 
 
-MULTI = ["é", "\U0001F600", " ", "́", "中"]
+MULTI = ["\u00e9", "\U0001F600", "\u2028", "\u0301", "\u4e2d", "\u200b", "\ufeff"]
 
 
 def mutated_pass_programs(r, per_file):
@@ -167,6 +167,10 @@ LEX_CORES = [
     ("underscore", "1_"), ("exp-overflow", "1e99999999999"),
     ("invalid-char-mb2", "é"), ("invalid-char-mb4", "\U0001F600"), ("invalid-char-mb3", "中 + 1"),
     ("invalid-char-ascii", "`"), ("invalid-char-after", "1 + é"),
+    # multi-byte characters of display width 0
+    ("invalid-char-combining", "\u0301"), ("invalid-char-combining-after", "a\u0301"),
+    ("invalid-char-zwsp", "1 + \u200b"), ("invalid-char-zwj", "1 + \u200d"), ("invalid-char-bom", "\ufeff1"),
+    ("invalid-char-shy", "\u00ad"), ("invalid-char-wide", "\uff21"),
     ("textblock-noeol", "|||x"), ("textblock-nows", "|||\nx\n|||"), ("textblock-unterminated", "|||\n  a\n"),
     ("textblock-badterm", "|||\n  a\n b\n|||"),
     ("invalid-utf8", b"\xff"), ("invalid-utf8-in-string", b'"a\xc3"'), ("invalid-utf8-trunc", b"1 + \xe4\xb8"),
@@ -251,8 +255,9 @@ def family_programs():
                     out.append(Prog(f"fam/run/{label}/{wl}/{pl}/{sl[0]}", _b(pre) + _b(body) + _b(suf),
                                     family="fam-run"))
     # errors of every stage inside an imported file (spans must name the import)
-    lib_cores = [LEX_CORES[0], LEX_CORES[16], PARSE_CORES[0], PARSE_CORES[2], STATIC_CORES[0], STATIC_CORES[5],
-                 RUNTIME_CORES[0], RUNTIME_CORES[2], RUNTIME_CORES[6], RUNTIME_CORES[15]]
+    want = ("unfinished-string", "invalid-char-mb2", "eof-after-op", "close-paren", "unknown-var", "dup-local",
+            "explicit", "div0", "std-arg", "inf-rec")
+    lib_cores = [c for c in LEX_CORES + PARSE_CORES + STATIC_CORES + RUNTIME_CORES if c[0] in want]
     mains = [("direct", 'import "lib.libsonnet"'), ("field", '{a: (import "lib.libsonnet")}.a'),
              ("longer-main", "# " + "x" * 300 + "\nlocal l = import 'lib.libsonnet'; [l]"),
              ("call", 'local f(x) = import "lib.libsonnet"; f(1)'),
